@@ -30,9 +30,11 @@ VARIABLES cap,
           handed, conn, engConn, onBehalf, willOk,              \* C04
           obsOf, obsIdx, obsRetAt, obsSt, nObs, dataTag, dataPend, dataPre, \* C02 registration state
           stage, seen, mustObs, annAtClose,                     \* C02 per-session close progress
-          lifeCalled, tdAt, tdUj
+          lifeCalled, tdAt, tdUj,
+          owed        \* owed[s]: bytes a receive has skipped because a CONCURRENT receive on s (called earlier, not returned yet in
+                      \* the log) took them - two threads may log their returns in either order; each must still be returned
 vars == <<l, cap, arrived, arrDone, disab, cur, closedAt, ovfSeen, maxBacklog, pendRecv, pendFlush, handed, conn, engConn, onBehalf,
-          willOk, obsOf, obsIdx, obsRetAt, obsSt, nObs, dataTag, dataPend, dataPre, stage, seen, mustObs, annAtClose, lifeCalled, tdAt, tdUj>>
+          willOk, obsOf, obsIdx, obsRetAt, obsSt, nObs, dataTag, dataPend, dataPre, stage, seen, mustObs, annAtClose, lifeCalled, tdAt, tdUj, owed>>
 
 FS(v) == [s \in Sess |-> v]
 NoConn == [st |-> "idle", to |-> 0, vt |-> 0, sid |-> -1]
@@ -43,7 +45,7 @@ Canon(c) == /\ cap' = c
             /\ obsOf' = [g \in Tags |-> -1] /\ obsIdx' = [g \in Tags |-> 0] /\ obsRetAt' = [g \in Tags |-> 0] /\ obsSt' = [g \in Tags |-> "none"] /\ nObs' = 0
             /\ dataTag' = FS("-") /\ dataPend' = FS({}) /\ dataPre' = FS(FALSE)
             /\ stage' = FS("none") /\ seen' = FS(<<>>) /\ mustObs' = FS({}) /\ annAtClose' = FS(FALSE)
-            /\ lifeCalled' = FALSE /\ tdAt' = -1 /\ tdUj' = 0
+            /\ lifeCalled' = FALSE /\ tdAt' = -1 /\ tdUj' = 0 /\ owed' = FS({})
 Init == /\ l = 1 /\ cap = 0
         /\ arrived = FS(0) /\ arrDone = FS(0) /\ disab = FS({}) /\ cur = FS(0) /\ closedAt = FS(-1) /\ ovfSeen = FS(FALSE) /\ maxBacklog = FS(0)
         /\ pendRecv = {} /\ pendFlush = {}
@@ -51,14 +53,15 @@ Init == /\ l = 1 /\ cap = 0
         /\ obsOf = [g \in Tags |-> -1] /\ obsIdx = [g \in Tags |-> 0] /\ obsRetAt = [g \in Tags |-> 0] /\ obsSt = [g \in Tags |-> "none"] /\ nObs = 0
         /\ dataTag = FS("-") /\ dataPend = FS({}) /\ dataPre = FS(FALSE)
         /\ stage = FS("none") /\ seen = FS(<<>>) /\ mustObs = FS({}) /\ annAtClose = FS(FALSE)
-        /\ lifeCalled = FALSE /\ tdAt = -1 /\ tdUj = 0
+        /\ lifeCalled = FALSE /\ tdAt = -1 /\ tdUj = 0 /\ owed = FS({})
 EvReset == IsEv("Reset") /\ Canon(0)
 EvBegin == IsEv("Begin") /\ Canon(Ev.cap)
 
 C03U == UNCHANGED <<arrived, arrDone, disab, cur, closedAt, ovfSeen, maxBacklog, pendRecv, pendFlush>>
 C04U == UNCHANGED <<handed, conn, engConn, onBehalf, willOk>>
 C02U == UNCHANGED <<obsOf, obsIdx, obsRetAt, obsSt, nObs, dataTag, dataPend, dataPre, stage, seen, mustObs, annAtClose>>
-Keep == UNCHANGED <<cap, lifeCalled, tdAt, tdUj>>
+Keep0 == UNCHANGED <<cap, lifeCalled, tdAt, tdUj>>
+Keep == Keep0 /\ UNCHANGED owed
 \* a call that was blocked or in flight when destruction began returns within this much (virtual) time of its beginning
 \* (judged on the call's own deadline, which no other thread's time-out can move: once destruction has begun, a call may
 \* end with Timeout only if its deadline lay within TdBound of that moment anyway - it must be released by the teardown)
@@ -94,10 +97,22 @@ HandOk(s, from, to) == /\ from < to /\ from >= cur[s] /\ to <= arrived[s]
                        /\ \A b \in from..(to - 1) : b \notin disab[s]       \* a Disabled session delivers nothing
                        /\ ~ovfSeen[s]                                      \* overflow is terminal for the stream
 AllHanded(s, upto) == \A b \in cur[s]..(upto - 1) : b \in disab[s]
+\* A receive that returns bytes BEYOND the cursor although the bytes in between are deliverable: admissible only while another
+\* receive on the same session is in flight (it has taken them and its return line comes later); the skipped bytes are owed.
+SkipOk(s, from, to, me) ==
+    /\ from < to /\ from > cur[s] /\ to <= arrived[s] /\ ~ovfSeen[s]
+    /\ \A b \in from..(to - 1) : b \notin disab[s]
+    /\ \E r \in pendRecv \ {me} : r[2] = s
+\* ... and a receive that returns owed bytes (behind the cursor): exactly bytes that are owed, each once
+OwedOk(s, from, to) == from < to /\ to <= cur[s] /\ \A b \in from..(to - 1) : b \in owed[s]
 
-EvData == /\ IsEv("Data") /\ HandOk(Ev.s, Ev.from, Ev.to) /\ ~Ev.as
+\* (a flush that hands over bytes beyond the cursor while a receive on the session is still in flight: see SkipOk)
+EvData == /\ IsEv("Data") /\ ~Ev.as
+          /\ \/ HandOk(Ev.s, Ev.from, Ev.to) /\ UNCHANGED owed
+             \/ /\ SkipOk(Ev.s, Ev.from, Ev.to, <<>>)
+                /\ owed' = [owed EXCEPT ![Ev.s] = @ \cup {b \in cur[Ev.s]..(Ev.from - 1) : b \notin disab[Ev.s]}]
           /\ cur' = [cur EXCEPT ![Ev.s] = Ev.to]
-          /\ UNCHANGED <<arrived, arrDone, disab, closedAt, ovfSeen, maxBacklog, pendRecv, pendFlush>> /\ C04U /\ C02U /\ Keep
+          /\ UNCHANGED <<arrived, arrDone, disab, closedAt, ovfSeen, maxBacklog, pendRecv, pendFlush>> /\ C04U /\ C02U /\ Keep0
 
 \* the 6th component remembers whether deliverable bytes were already sitting in the buffer when the call began
 Waiting(s) == \E b \in cur[s]..(arrDone[s] - 1) : b \notin disab[s]
@@ -110,26 +125,29 @@ EvRecvRet ==
     /\ pendRecv' = pendRecv \ {MyRecv}
     /\ LET s == Ev.s IN
        CASE Ev.res = "ok" ->
-              /\ HandOk(s, Ev.from, Ev.to) /\ Ev.to - Ev.from <= MyRecv[3]
-              /\ cur' = [cur EXCEPT ![s] = Ev.to] /\ UNCHANGED ovfSeen
+              /\ Ev.to - Ev.from <= MyRecv[3] /\ UNCHANGED ovfSeen
+              /\ \/ HandOk(s, Ev.from, Ev.to) /\ cur' = [cur EXCEPT ![s] = Ev.to] /\ UNCHANGED owed
+                 \/ /\ SkipOk(s, Ev.from, Ev.to, MyRecv) /\ cur' = [cur EXCEPT ![s] = Ev.to]
+                    /\ owed' = [owed EXCEPT ![s] = @ \cup {b \in cur[s]..(Ev.from - 1) : b \notin disab[s]}]
+                 \/ /\ OwedOk(s, Ev.from, Ev.to) /\ owed' = [owed EXCEPT ![s] = @ \ (Ev.from..(Ev.to - 1))] /\ UNCHANGED cur
          [] Ev.res = "PeerClosed" ->       \* only after every byte that arrived before the close was returned
               /\ closedAt[s] >= 0 /\ AllHanded(s, closedAt[s]) /\ ~ovfSeen[s]
-              /\ UNCHANGED <<cur, ovfSeen>>
+              /\ UNCHANGED <<cur, ovfSeen, owed>>
          [] Ev.res = "BufferOverflow" ->   \* distinct, and only when the cap could have been exceeded
               /\ maxBacklog[s] > cap
-              /\ ovfSeen' = [ovfSeen EXCEPT ![s] = TRUE] /\ UNCHANGED cur
+              /\ ovfSeen' = [ovfSeen EXCEPT ![s] = TRUE] /\ UNCHANGED <<cur, owed>>
          [] Ev.res = "Timeout" ->          \* never before the timeout elapsed; never once overflow was reported (sticky);
                                            \* never while bytes that had fully arrived before the call are still undelivered
                                            \* (unless the cap may have dropped them, a flush owns the buffer, or teardown runs)
               /\ Ev.vt - MyRecv[5] >= MyRecv[4] /\ ~ovfSeen[s] /\ TimeoutOk(MyRecv[5], MyRecv[4])
               /\ (MyRecv[6] /\ Waiting(s)) => (maxBacklog[s] > cap \/ lifeCalled \/ \E f \in pendFlush : f[2] = s)
-              /\ UNCHANGED <<cur, ovfSeen>>
-         [] Ev.res = "ShuttingDown" -> lifeCalled /\ UNCHANGED <<cur, ovfSeen>>
+              /\ UNCHANGED <<cur, ovfSeen, owed>>
+         [] Ev.res = "ShuttingDown" -> lifeCalled /\ UNCHANGED <<cur, ovfSeen, owed>>
          [] Ev.res = "Cancelled" ->        \* single-waiter contract: another receive or a flush on the session is in flight
               /\ (\E r \in pendRecv \ {MyRecv} : r[2] = s) \/ (\E f \in pendFlush : f[2] = s)
-              /\ UNCHANGED <<cur, ovfSeen>>
+              /\ UNCHANGED <<cur, ovfSeen, owed>>
          [] OTHER -> FALSE
-    /\ UNCHANGED <<arrived, arrDone, disab, closedAt, maxBacklog, pendFlush>> /\ C04U /\ C02U /\ Keep
+    /\ UNCHANGED <<arrived, arrDone, disab, closedAt, maxBacklog, pendFlush>> /\ C04U /\ C02U /\ Keep0
 
 EvModeCall == /\ IsEv("ModeCall")
               /\ pendFlush' = IF Ev.m = "async" THEN pendFlush \cup {<<Ev.t, Ev.s>>} ELSE pendFlush
@@ -248,7 +266,7 @@ EvCloseRet == /\ IsEv("CloseRet") /\ stage[Ev.s] \in {"start", "global", "obs", 
               /\ UNCHANGED <<obsOf, obsIdx, obsRetAt, obsSt, nObs, dataTag, dataPend, dataPre, seen, mustObs, annAtClose>> /\ C03U /\ C04U /\ Keep
 
 \* ---- C05 --------------------------------------------------------------------------------------------
-EvLifeCall == /\ IsEv("LifeCall") /\ lifeCalled' = TRUE /\ UNCHANGED cap /\ C03U /\ C04U /\ C02U
+EvLifeCall == /\ IsEv("LifeCall") /\ lifeCalled' = TRUE /\ UNCHANGED <<cap, owed>> /\ C03U /\ C04U /\ C02U
               /\ tdAt' = IF Ev.op \in {"destroy", "destroy_in_cb"} /\ tdAt < 0 THEN Ev.vt ELSE tdAt
               /\ tdUj' = IF Ev.op \in {"destroy", "destroy_in_cb"} /\ tdAt < 0 THEN Uj ELSE tdUj
 EvLifeRet == IsEv("LifeRet") /\ C03U /\ C04U /\ C02U /\ Keep
@@ -256,6 +274,7 @@ EvSendRet == IsEv("SendRet") /\ C03U /\ C04U /\ C02U /\ Keep
 EvListenRet == IsEv("ListenRet") /\ C03U /\ C04U /\ C02U /\ Keep
 EvEnd == /\ IsEv("End") /\ Ev.outcome # "stuck"                                   \* every blocked or in-flight call returns
          /\ (Ev.outcome = "done") => (pendRecv = {} /\ \A t \in Thr : conn[t].st = "idle")
+         /\ (Ev.outcome = "done") => \A s \in Sess : owed[s] = {}            \* every skipped byte was returned by its taker
          /\ C03U /\ C04U /\ C02U /\ Keep
 
 Next == EvReset \/ EvBegin \/ EvObserveCall \/ EvSetDataCall \/ EvArriveCall \/ EvArriveRet \/ EvData \/ EvRecvCall \/ EvRecvRet \/ EvModeCall \/ EvModeRet
